@@ -304,7 +304,7 @@ class World(OpsMixin, OracleMixin):
                             self.cancel_seen(t, "w")
                     return "cancelled", ce
                 return "cancelled", ce
-            if t.pending and ins[0] in ("y", "g") and (ins[0] == "g" or ins[1] > 0):
+            if t.pending and ins[0] in ("y", "g", "q") and (ins[0] != "y" or ins[1] > 0) and (ins[0] != "q" or t.q_suspended):
                 self.delivery_violation(t, f"task {t.tid} resumed normally from a suspension although a cancellation had been requested before (not delivered at its next suspension point)")
                 t.pending = False
                 t.owed -= 1
@@ -326,8 +326,46 @@ class World(OpsMixin, OracleMixin):
                 await self._sleep0(t)
         elif op == "g":
             await self._gate("w", t)
+        elif op == "q":
+            await self._qblock(t)
         elif op == "op":
             self.do_op(ins[1], ("worker", t))
+
+    def libq(self):
+        q = getattr(self, "_libq", None)
+        if q is None:
+            q = self._libq = self.mods.queue.Queue()
+            self.qwaiters = []
+        return q
+
+    async def _qblock(self, t):
+        """The worker's suspension point lies inside library code: `async with queue as item` on the library's Queue."""
+        t.q_suspended = False
+        if self.draining and not self.checks_on:
+            return
+        q = self.libq()
+        t.q_suspended = q.empty()  # with an item at hand the block is entered without suspending
+        self.qwaiters.append(t)
+        self.sit["q.wait" if t.q_suspended else "q.nowait"] += 1
+        self.ev("q_wait", t.pool.idx, t.tid)
+        waiting = True
+        try:
+            async with q as item:
+                waiting = False
+                self.qwaiters.remove(t)
+                self.ev("q_got", t.pool.idx, t.tid, item)
+                self.sit["q.got.pending" if t.pending else "q.got"] += 1
+        finally:
+            if waiting:
+                self.qwaiters.remove(t)
+
+    def op_qput(self, step, issuer):
+        q = self.libq()
+        for _ in range(step.get("n", 1)):
+            self._qserial = getattr(self, "_qserial", 0) + 1
+            q.put_nowait(self._qserial)
+        self.ev("q_put", step.get("n", 1))
+        self.sit["q.put.with_waiters" if self.qwaiters else "q.put.idle"] += 1
 
     async def _sleep0(self, t):
         await asyncio.sleep(0)
@@ -483,12 +521,14 @@ class World(OpsMixin, OracleMixin):
         for i in range(n):
             base = ("e", req.idx, i)
             if i in req.bad:
+                # elements whose call raises come short and long (the library logs them), of several types
+                variant = (req.idx + i) % 3
                 if stars == 1:
-                    el = 5  # func(*5) -> TypeError
+                    el = (5, 10 ** 95, None)[variant]  # func(*5) -> TypeError
                 elif stars == 2:
-                    el = {1: base}  # func(**{1: ..}) -> TypeError
+                    el = ({1: base}, {1: "pad" * 40, 2: base}, {("k", i): base})[variant]  # func(**{1: ..}) -> TypeError
                 else:
-                    el = base  # map: the call itself raises (callraise)
+                    el = (base, base + ("pad" * 40,), frozenset({base, "pad" * 40}))[variant]  # map: the call itself raises (callraise)
             elif i in req.empties and stars == 1:
                 el = () if i % 2 else []  # func() must be called with no argument at all
             elif i in req.empties and stars == 2:
@@ -627,7 +667,8 @@ class World(OpsMixin, OracleMixin):
         self.check_instant(pr, where)
         j = self.ucp_count
         self.ucp_count += 1
-        if j in self.ucp_ops and not self.in_ucp_op:
+        if j in self.ucp_ops and not self.in_ucp_op and not pr.probe_mode:
+            # (never inside the capacity probe: its gated tasks are the measuring instrument)
             self.in_ucp_op = True
             try:
                 t = self.by_task.get(asyncio.current_task())
@@ -716,9 +757,12 @@ class World(OpsMixin, OracleMixin):
         self.draining = True
         for _ in range(200):
             await self.idle(quiet=True)
-            if not self.gates:
+            qw = len(getattr(self, "qwaiters", ()))
+            if not self.gates and not qw:
                 break
             self.open_gates(("all",))
+            if qw:
+                self.op_qput({"n": qw}, ("conductor",))
         else:
             raise Livelock("gates keep appearing")
         self.draining = False
